@@ -1,6 +1,6 @@
 """Which units decide which property (DESIGN.md sections 1, 5)."""
 
-VERUS_UNITS = ['U-FMT', 'U-REACH', 'U-COMPACTAS', 'U-SANITY', 'U-RESOLVE', 'U-CONTAINS', 'U-CALLS', 'U-DESCR', 'U-DERIVES', 'U-MIXED', 'U-BUILDERS', 'U-SUBST', 'U-VALIDATE', 'U-FLATTEN', 'U-PATHS', 'U-TYPEIR', 'U-TYEX', 'U-SIMILAR']
+VERUS_UNITS = ['U-FMT', 'U-REACH', 'U-COMPACTAS', 'U-SANITY', 'U-RESOLVE', 'U-CONTAINS', 'U-CALLS', 'U-DESCR', 'U-DERIVES', 'U-MIXED', 'U-BUILDERS', 'U-SUBST', 'U-VALIDATE', 'U-FLATTEN', 'U-PATHS', 'U-TYPEIR', 'U-TYEX', 'U-SIMILAR', 'U-DESCTEXT']
 
 PROPS = {
     'C15': {
@@ -51,7 +51,7 @@ PROPS = {
     },
     'C13': {
         'level': 'proof',
-        'verus': ['U-DESCR'],
+        'verus': ['U-DESCR', 'U-DESCTEXT'],
         'kani': ['primnames_table', 'primnames_in_type_name'],
         'trusted_base': [
             'Verus 0.2026.09.13, Z3, rustc 1.98.1',
@@ -59,10 +59,12 @@ PROPS = {
         ],
         'assumptions': [
             'everything type_description does before the formatting decision (Transformer construction, policies, resolve) is abstracted by rule R8-head: its result is an arbitrary string named by an uninterpreted spec function',
+            'U-DESCTEXT (tuple_type_description, variant_type_def_type_description, fields_type_description): relative to what the callees return for each element -- Transformer::resolve (ASSUMED contract, uninterpreted relation is_descr), variant_type_description / field_type_description (opaque: format!) -- under assumed std contracts for Peekable (next / peek) and slice.iter().all',
             'memory allocation for the output String succeeds',
         ],
         'not_covered': [
-            'termination of the description on cyclic graphs and faithfulness of the text (Transformer::resolve: RefCell<HashMap>, function pointers; format! everywhere)',
+            'termination of the description on cyclic graphs and the expand-once policy (Transformer::resolve: RefCell<HashMap>, function pointers)',
+            'faithfulness of the text outside the three list-assembling functions: one field (`name: T`, Box), one variant, Vec / array / Compact / BitSequence wrappers, the struct / enum prefix, names with generic arguments (format! in ty_description, type_def_type_description, field_type_description, variant_type_description, type_name_with_type_params)',
         ],
     },
     'C12': {
